@@ -200,7 +200,23 @@ def r06_2(rep: Report) -> None:
     mcls = need(find_class(mt, 'ManifestContext'), 'ManifestContext')
     ut = need(find_func(mcls, 'update_timing'), 'update_timing')
     sets = [n for n in ast.walk(ut) if isinstance(n, ast.Assign) and norm(n.targets[0]) == 'self.mediaDuration']
-    if sets and all(norm(s.value) == 'stc.mediaDuration' for s in sets):
+    def _src(e: ast.AST) -> str:
+        """the value with single-definition locals resolved and typing.cast(T, x) read as x"""
+        from ..core import subst_locals as _sl
+        from ..normalise import clone as _clone
+
+        class _Uncast(ast.NodeTransformer):
+            def visit_Call(self, node):
+                self.generic_visit(node)
+                if (call_name(node) or '').split('.')[-1] == 'cast' and len(node.args) == 2:
+                    return node.args[1]
+                return node
+        cur = _clone(e)
+        for _ in range(3):
+            cur = _Uncast().visit(_sl(ut, cur, allow_calls=True))
+        return norm(cur)
+    tparam = ut.args.args[1].arg if len(ut.args.args) > 1 else 'timing'
+    if sets and all(_src(s.value) == f'{tparam}.generate_manifest_context().mediaDuration' for s in sets):
         rep.ok(rid, f'{MC}::ManifestContext.update_timing', 'mpd.mediaDuration = timing context')
     else:
         rep.fail(rid, f'{MC}::ManifestContext.update_timing', 'mpd.mediaDuration = timing context',
